@@ -100,8 +100,31 @@ func vjsBin(c *core.Ctx) string {
 	return bin
 }
 
-// evalJS runs the scripts through parallel vjs workers; results by index.
+var vjsSlots = make(chan struct{}, runtime.NumCPU())
+
+// evalJS runs the scripts through parallel vjs workers; results by index. A
+// job whose watchdog fired (loaded machine) is retried alone with a two-minute
+// watchdog; if that fires too the case is inconclusive, never a verdict.
 func (e *engine) evalJS(scripts []string) []vres {
+	out := e.evalJSOnce(scripts, nil)
+	var again []string
+	var idx []int
+	for i, r := range out {
+		if r.Error != nil && *r.Error == "timeout" {
+			again, idx = append(again, scripts[i]), append(idx, i)
+		}
+	}
+	if len(again) > 0 {
+		e.c.Add("v8_watchdog_retries", len(again))
+		for k, r := range e.evalJSOnce(again, []string{"VJS_TIMEOUT_MS=120000"}) {
+			r.ID = idx[k]
+			out[idx[k]] = r
+		}
+	}
+	return out
+}
+
+func (e *engine) evalJSOnce(scripts []string, env []string) []vres {
 	out := make([]vres, len(scripts))
 	nw := min(runtime.NumCPU(), 1+len(scripts)/500)
 	var wg sync.WaitGroup
@@ -109,6 +132,8 @@ func (e *engine) evalJS(scripts []string) []vres {
 		wg.Add(1)
 		go func(w int) {
 			defer wg.Done()
+			vjsSlots <- struct{}{}
+			defer func() { <-vjsSlots }()
 			lo, hi := len(scripts)*w/nw, len(scripts)*(w+1)/nw
 			var in strings.Builder
 			enc := json.NewEncoder(&in)
@@ -116,7 +141,7 @@ func (e *engine) evalJS(scripts []string) []vres {
 			for i := lo; i < hi; i++ {
 				_ = enc.Encode(vjob{i, scripts[i]})
 			}
-			res := corpus.Run(e.vjs, nil, []byte(in.String()), nil, e.pkg.Dir, 15*time.Minute)
+			res := corpus.Run(e.vjs, nil, []byte(in.String()), env, e.pkg.Dir, 30*time.Minute)
 			dec := json.NewDecoder(strings.NewReader(string(res.Stdout)))
 			n := 0
 			for dec.More() {
@@ -369,7 +394,7 @@ func want(tmpl string, v any) (any, string, error) {
 		lit = s
 	}
 	lj, _ := json.Marshal(lit)
-	txt := strings.ReplaceAll(strings.ReplaceAll(tmpl, "$V", string(vj)), "$L", string(lj))
+	txt := strings.NewReplacer("$V", string(vj), "$L", string(lj)).Replace(tmpl) // single pass: substituted text is not rescanned
 	var w any
 	if err := json.Unmarshal([]byte(txt), &w); err != nil {
 		return nil, "", fmt.Errorf("bad expectation %s: %v", txt, err)
@@ -387,6 +412,8 @@ type engine struct {
 	plans []*plan
 	mu    sync.Mutex
 	memo  map[string]string // judge results by case key (shrinking revisits the same candidates)
+	// broken: positions that fail with the benign string (reported, then skipped)
+	broken map[string]string
 }
 
 type rendering struct {
@@ -423,13 +450,28 @@ func build(c *core.Ctx) *engine {
 	wg.Add(1)
 	go func() { defer wg.Done(); e.vjs = vjsBin(c) }()
 	p := corpus.New(c, "c03")
-	p.Write("positions.templ", templSource())
+	for name, src := range templFiles() {
+		p.Write(name, src)
+	}
 	p.Write("helper.go", helperSrc)
 	p.Write("valspec.go", strings.Replace(valspecSrc, "package c03", "package main", 1))
-	p.Write("main.go", driverSrc())
-	if out, err := p.Generate(); err != nil {
-		core.Infra("templ generate failed on the C03 positions: %v\n%s", err, corpus.Tail(out, 3000))
+	genOut, genErr := p.Generate()
+	// a position whose template the generator does not turn into its component
+	// (parse error, or swallowed by a mis-parsed script element) is reported as
+	// broken; the others still run
+	e.broken = map[string]string{}
+	available := map[string]bool{}
+	for _, ps := range positions {
+		src, _ := p.Read("p_" + ps.Name + "_templ.go")
+		if available[ps.Name] = strings.Contains(src, "func P_"+ps.Name+"("); !available[ps.Name] {
+			e.broken[ps.Name] = fmt.Sprintf("templ generate did not produce the component (%v): %s", genErr, corpus.Tail(genOut, 600))
+			_ = os.Remove(filepath.Join(p.Dir, "p_"+ps.Name+"_templ.go"))
+		}
 	}
+	if src, _ := p.Read("scripts_templ.go"); genErr != nil && (len(e.broken) == 0 || !strings.Contains(src, "func c03scr3(")) {
+		core.Infra("templ generate failed on the C03 positions: %v\n%s", genErr, corpus.Tail(genOut, 3000))
+	}
+	p.Write("main.go", driverSrc(available))
 	bin, out, err := p.Build(false, ".")
 	if err != nil {
 		core.Infra("go build failed on the C03 positions: %v\n%s", err, corpus.Tail(out, 3000))
@@ -440,22 +482,35 @@ func build(c *core.Ctx) *engine {
 	if docs == nil {
 		core.Infra("driver returned no benign rendering")
 	}
+	// A position whose benign rendering does not even contain the expected
+	// fragments, or where the benign string itself fails the pipeline, is a
+	// refuting observation in its own right (the position is broken for every
+	// value); it is reported and left out of the matrix.
 	for i := range positions {
+		if e.broken[positions[i].Name] != "" {
+			e.plans = append(e.plans, nil)
+			continue
+		}
 		pl, err := mkPlan(&positions[i], docs[0][i])
 		if err != nil || errs[0][i] != "" {
-			core.Infra("benign rendering of position %s unusable: %v %s", positions[i].Name, err, errs[0][i])
+			e.broken[positions[i].Name] = fmt.Sprintf("rendering with the benign string %q is unusable: %v %s", Sentinel, err, errs[0][i])
+			pl = nil
 		}
 		e.plans = append(e.plans, pl)
 	}
-	// the benign value must pass the whole pipeline, else the harness is broken
 	var cs []Case
 	for i := range positions {
-		cs = append(cs, Case{Pos: positions[i].Name, V: MkSpec("str", Sentinel)})
+		if e.plans[i] != nil {
+			cs = append(cs, Case{Pos: positions[i].Name, V: MkSpec("str", Sentinel)})
+		}
 	}
 	for i, m := range e.judge(cs) {
 		if m != "" {
-			core.Infra("benign value fails position %s: %s", cs[i].Pos, m)
+			e.broken[cs[i].Pos] = fmt.Sprintf("the benign string %q fails: %s", Sentinel, m)
 		}
+	}
+	if len(e.broken) == len(positions) {
+		core.Infra("every position fails with the benign string, e.g. %s", e.broken["bare"])
 	}
 	return e
 }
@@ -555,12 +610,17 @@ type pending struct {
 func (e *engine) judgeDocs(cases []Case, docs [][]byte, msgs []string) []string {
 	var scripts []string
 	var pend []pending
+	lex := map[int]string{}
 	for ci, cs := range cases {
 		if msgs[ci] != "" || docs[ci] == nil {
 			continue
 		}
 		pi := posIndex(cs.Pos)
 		p, pl := &positions[pi], e.plans[pi]
+		if pl == nil {
+			msgs[ci] = "inconclusive: position has no usable benign rendering"
+			continue
+		}
 		v := cs.V.Go()
 		ts, err := html5.Tokenize(docs[ci])
 		if err != nil {
@@ -607,8 +667,8 @@ func (e *engine) judgeDocs(cases []Case, docs [][]byte, msgs []string) []string 
 					if m := fnNameFault(u.Text, cs.V.LeafString()); m != "" {
 						msgs[ci] = m
 					}
-				} else if m := lexical(kind, fr); m != "" {
-					msgs[ci] = fmt.Sprintf("%s fragment %q: %s", kind, fr, m)
+				} else if m := lexical(kind, fr); m != "" && lex[ci] == "" {
+					lex[ci] = fmt.Sprintf("%s fragment %q: %s", kind, fr, m) // V8 still runs: its observation is appended
 				}
 			}
 			if msgs[ci] != "" {
@@ -631,13 +691,30 @@ func (e *engine) judgeDocs(cases []Case, docs [][]byte, msgs []string) []string 
 			di++
 		}
 	}
+	for ci, m := range lex {
+		if positions[posIndex(cases[ci].Pos)].Want == nil && msgs[ci] == "" {
+			msgs[ci] = m
+		}
+	}
 	res := e.evalJS(scripts)
 	for k, pd := range pend {
 		if msgs[pd.ci] != "" {
 			continue
 		}
 		r := res[k]
+		if m := lex[pd.ci]; m != "" {
+			switch {
+			case r.Error != nil:
+				m += fmt.Sprintf("; V8: %s; expected the sinks to receive %s", *r.Error, pd.txt)
+			case r.Result != nil:
+				m += fmt.Sprintf("; V8: sinks received %s, expected %s", *r.Result, pd.txt)
+			}
+			msgs[pd.ci] = m
+			continue
+		}
 		switch {
+		case r.Error != nil && *r.Error == "timeout":
+			msgs[pd.ci] = "inconclusive: V8 watchdog fired twice"
 		case r.Error != nil:
 			msgs[pd.ci] = fmt.Sprintf("V8: %s; expected the sinks to receive %s", *r.Error, pd.txt)
 		case r.Result == nil:
@@ -689,7 +766,10 @@ func (e *engine) shrink(cs Case) (Case, string) {
 		var v any
 		_ = json.Unmarshal([]byte(cs.V.LeafString()), &v)
 		cands = nil
-		sub := func(x any) { b, _ := json.Marshal(x); cands = append(cands, Case{Pos: cs.Pos, V: MkSpec("json", string(b))}) }
+		sub := func(x any) {
+			b, _ := json.Marshal(x)
+			cands = append(cands, Case{Pos: cs.Pos, V: MkSpec("json", string(b))})
+		}
 		switch x := v.(type) {
 		case map[string]any:
 			ks := make([]string, 0, len(x))
@@ -813,6 +893,13 @@ func Run(c *core.Ctx) {
 		c.Violate(key(r), fmt.Sprintf("position %s (%s) with %s value %s: %s", r.Pos, strings.Join(strings.Fields(p.Body), " "), r.V.Shape, r.Leaf, m2), r)
 	}
 
+	for _, p := range positions {
+		if m, bad := e.broken[p.Name]; bad {
+			c.Eval(1)
+			c.Violate(p.Name+" benign", fmt.Sprintf("position %s (%s): %s", p.Name, strings.Join(strings.Fields(p.Body), " "), m), Case{Pos: p.Name, V: MkSpec("str", Sentinel), Leaf: strconv.Quote(Sentinel)})
+		}
+	}
+
 	if c.ReplayFile != "" {
 		var cs Case
 		c.LoadReplay(&cs)
@@ -912,6 +999,9 @@ func Run(c *core.Ctx) {
 					if _, composite := basePositions[positions[pi].Name]; composite && !everywhere[lo+i] {
 						continue
 					}
+					if e.broken[positions[pi].Name] != "" {
+						continue
+					}
 					cs := Case{Pos: positions[pi].Name, V: v}
 					m := ""
 					if docs[i] == nil {
@@ -951,8 +1041,10 @@ func Run(c *core.Ctx) {
 	wg.Wait()
 	dbg("matrix done")
 	minCov := int64(1 << 62)
-	for _, n := range covered {
-		minCov = min(minCov, n)
+	for i, n := range covered {
+		if e.broken[positions[i].Name] == "" {
+			minCov = min(minCov, n)
+		}
 	}
 	c.Set("nontrivial_values_per_position_min", minCov)
 	if minCov == 0 {
